@@ -14,6 +14,7 @@ import CifModel.Lemmas.NumbLimbPass
 import CifModel.Lemmas.NumbLimbRound
 import CifModel.Lemmas.NumbLimbLink
 import CifModel.Lemmas.NumbLimbCarry
+import CifModel.Lemmas.NumbLimbRefine
 /-
   Property C10 — number text and double values convert with correct rounding.
 
@@ -300,6 +301,18 @@ theorem C10_autoinit_scale (val su : Bin) (rule : Nat) (msp : Int) (q : Bool) (t
       (Lemmas.NumbAutoinit.scaled_uniform su.m su.e _).1, (Lemmas.NumbAutoinit.scaled_uniform su.m su.e _).2]
     exact this
 
+/-- **C10_msp_exact**: what the macro `MSP(val)` must deliver (and, since fix 0504c8d, does: the `initnumb` oracle demands
+    exactly this value of the executor's observation): for every finite non-zero double `±m·2^e` (`e ≥ −1074`),
+    `mspExact` is THE integer `k` with `10^k ≤ |val| < 10^(k+1)` — written without division, `|val| = vn/vd`. -/
+theorem C10_msp_exact (v : Bin) (hm : v.m ≠ 0) (he : -1074 ≤ v.e) :
+    10 ^ (mspExact v).toNat * (ratOfBin v.m v.e).2 ≤ (ratOfBin v.m v.e).1 * 10 ^ (-(mspExact v)).toNat ∧
+    (ratOfBin v.m v.e).1 * 10 ^ (-(mspExact v)).toNat < 10 * (10 ^ (mspExact v).toNat * (ratOfBin v.m v.e).2) := by
+  obtain ⟨h1, h2, h3⟩ := Lemmas.NumbAutoinit.ratOfBin_pos v.m v.e hm he
+  have := Lemmas.NumbAutoinit.flog10Rat_spec _ _ h1 h2 h3
+  unfold mspExact
+  simp only [hm, if_false]
+  exact this
+
 /-! ### the base-10⁹ limb level (Model/NumbLimbs.lean) -/
 
 open Model.NumbLimbs Lemmas.NumbLimbPass in
@@ -311,7 +324,7 @@ open Model.NumbLimbs Lemmas.NumbLimbPass in
 theorem C10_limbs_shr_pass (extra s : Nat) (A A' : Arr) (h : shrPass extra s A = some A') (wf : WF A)
     (hord : A.msd ≤ A.lsd + 1) :
     natOfLimbs A'.digits * 2 ^ s = natOfLimbs A.digits ∧ A'.digits.length = A.digits.length ∧ WF A' :=
-  shrPass_spec extra s A A' h wf hord
+  ⟨(shrPass_spec extra s A A' h wf hord).1, (shrPass_spec extra s A A' h wf hord).2.1, (shrPass_spec extra s A A' h wf hord).2.2.1⟩
 
 open Model.NumbLimbs Lemmas.NumbLimbPass in
 /-- **C10_limbs_shl_pass**: a left-shift pass as written (per-limb `(*dig << s) + carry`, `% BBASE`, `/ BBASE`, continued
@@ -350,15 +363,35 @@ theorem C10_limbs_carry_loop (fuel : Nat) (ds : List Nat) (r : Nat) (hr : r < ds
   unfold printedAt printed
   simp [natOfLimbs]
 
-/-- FULL refinement statements of the limb level.  NOT yet proved as a whole: the pass and rounding theorems above are
-    the loop invariants they rest on; what is missing is the index bookkeeping around them (reading the digits into the
-    array, `units_digit`/`msd` positions against the exact logarithms, the `lsd` quirks, to_digits' carry loop and digit
-    generation).  Until then both equalities are CHECKED ON EVERY REQUEST of the `todbl`/`todig` families: the driver
-    evaluates both levels and answers `LIMB-LEVEL … BIG-LEVEL …` (a disagreement with the real code) if they differ. -/
-def C10_limbs_refine_big_full : Prop :=
-  (∀ (ds : List Nat) (scale : Int) (d : Dbl), Model.NumbLimbs.toDoubleLimbs ds scale = some d → d = toDoubleBig ds scale) ∧
-  (∀ (m : Nat) (e scale : Int) (l : List Nat), -308 ≤ scale → scale ≤ 321 → Model.NumbLimbs.toDigitsLimbs m e scale = some l →
-    l = toDigitsBig m e scale)
+/-- **C10_limbs_refine_to_double** (∀ digit strings with digits ≤ 9, ∀ scales): the base-10⁹ limb level of to_double —
+    digits read into the work array, `units_digit`/first-limb positions from the shift estimates, right/left shift
+    passes of ≤ 28 bits with `msd`/`lsd` tracking (including `lsd` resting on an untouched zero limb after an exactly
+    filled limb), the mantissa loop, `round_to_int`/`round_it`/`compare_half`/`is_zero` over limbs, carry, `ldexp` —
+    returns exactly what the exact-arithmetic level `toDoubleBig` returns, whenever it stays inside the 337-limb array
+    (`none` = overrun, which the executors watch for under ASan).  With `C10_to_double_big` the limb level therefore
+    rounds to nearest-even.  Proof: abstraction "array number / weight of the units limb = the fraction" (`Rel`), one
+    refinement lemma per pass, the loops by induction on the fuel (`Lemmas/NumbLimbRefine.lean`). -/
+theorem C10_limbs_refine_to_double (ds : List Nat) (scale : Int) (d : Dbl) (hdig : ∀ x ∈ ds, x ≤ 9)
+    (h : Model.NumbLimbs.toDoubleLimbs ds scale = some d) : d = toDoubleBig ds scale :=
+  Lemmas.NumbLimbRefine.toDoubleLimbs_refines ds scale d hdig h
+
+/-- corollary: the limb level rounds to nearest-even -/
+theorem C10_limbs_to_double_rne (ds : List Nat) (scale : Int) (d : Dbl) (hdig : ∀ x ∈ ds, x ≤ 9) (hnz : natOfDigits ds ≠ 0)
+    (hlen : ((ds.dropWhile (· = 0)).reverse.dropWhile (· = 0)).length ≤ 2048) (p : Nat × Int)
+    (hr : IsRne (C10_valNum ds scale) (C10_valDen scale) p) (hn : InNormalRange p)
+    (h : Model.NumbLimbs.toDoubleLimbs ds scale = some d) : d = .fin false p.1 p.2 := by
+  rw [C10_limbs_refine_to_double ds scale d hdig h]
+  exact C10_to_double_big ds scale hdig hnz hlen p hr hn
+
+/-- the to_digits half of the limb refinement, NOT yet proved end-to-end (named partial): the pass theorems, the
+    rounding-over-limbs theorem and `C10_limbs_carry_loop` are its loop invariants; missing are (1) `limbsOfNat` reads
+    the 53-bit fraction into the array (value and positions), (2) chaining `digShr`/`digShl` passes (as `shrLoop_spec`
+    does for to_double), (3) rounding inside a limb with `p10` = `rhe` at `10^-scale` (the decomposition of the array
+    number at limb `r`), (4) `msd` of the shifted array = `limbOfPlace (flog10Rat |d|)`, (5) digit generation
+    (`limbDigits`, `countDigits`, truncation) = `decDigits`.  The equality is evaluated on every `todig` request. -/
+def C10_limbs_refine_to_digits_full : Prop :=
+  ∀ (m : Nat) (e scale : Int) (l : List Nat), -308 ≤ scale → scale ≤ 321 → Model.NumbLimbs.toDigitsLimbs m e scale = some l →
+    l = toDigitsBig m e scale
 
 /-! ### non-vacuity and regression examples -/
 
